@@ -20,7 +20,15 @@ theorem judge_ok_iff_inv (s : State) : judge s = "ok" ↔ Inv s := (judge_ok_iff
 
 /-- a fresh setup over any devices satisfies the invariant -/
 theorem inv_init (cfg : List (Nat × Nat)) (ndacs : Nat) : Inv (init cfg ndacs) := by
-  refine ⟨?_, ?_, ?_, ?_, ?_, ?_, ?_, ?_⟩
+  refine ⟨?_, ?_, ?_, ?_, ?_, ?_, ?_, ?_, ?_, ?_⟩
+  rotate_left 8
+  · intro g hg
+    simp only [init, List.mem_map] at hg
+    obtain ⟨c, _, rfl⟩ := hg
+    rfl
+  · intro g hg
+    simp only [init] at hg
+    rw [(List.mem_replicate.1 hg).2]
   · intro c outs h; simp [init] at h
   · intro c outs h; simp [init] at h
   · intro n r h; simp [init] at h
@@ -59,6 +67,8 @@ theorem inv_step {s s' : State} {op : Op} (hI : Inv s) (hr : rewires s op = fals
     injection h with h; subst h; exact inv_clear hI
   | arm n => exact inv_arm hI h
   | run n => exact inv_arm hI h
+  | setFaultAwg a mode => simp [rewires] at hr
+  | setFaultDac d mode => simp [rewires] at hr
 
 /-- registration, update and re-registration preserve the invariant without any side condition -/
 theorem inv_step_register {s s' : State} {n : Name} {p : Program} {cbOk update : Bool}
@@ -123,6 +133,9 @@ theorem arm_spec {s s' : State} {n : Name} (hI : Inv s) (h : step s (.arm n) = .
   | none => rw [hr] at h; cases h
   | some r =>
     rw [hr] at h
+    simp only at h
+    split at h
+    · cases h
     injection h with h
     subst h
     obtain ⟨a1, a2⟩ := hI.regAwgs n r hr
@@ -158,7 +171,7 @@ theorem remove_gone {s : State} (n : Name) (hI : Inv s) : Gone (remove s n) n :=
     | none => simpa using hr
     | some r => exact aget_adel_self _ _
   refine ⟨hreg, ?_, ?_⟩
-  · intro g hg
+  · intro g hg hf
     obtain ⟨a, _, ha⟩ := List.getElem_of_mem hg
     have hg' : (remove s n).awgs[a]? = some g := by rw [← ha]; exact List.getElem?_eq_getElem _
     cases hu : aget n g.progs with
@@ -166,7 +179,7 @@ theorem remove_gone {s : State} (n : Name) (hI : Inv s) : Gone (remove s n) n :=
     | some u =>
       obtain ⟨r, hr, _⟩ := hI'.awgHeld a g hg' n u hu
       rw [hreg] at hr; cases hr
-  · intro g hg
+  · intro g hg hf
     obtain ⟨d, _, hd⟩ := List.getElem_of_mem hg
     have hg' : (remove s n).dacs[d]? = some g := by rw [← hd]; exact List.getElem?_eq_getElem _
     cases hw : aget n g.progs with
@@ -180,7 +193,7 @@ theorem clear_gone {s : State} (hI : Inv s) (n : Name) : Gone (clear s) n := by
   have hI' := inv_clear hI
   have hreg : aget n (clear s).registered = none := rfl
   refine ⟨hreg, ?_, ?_⟩
-  · intro g hg
+  · intro g hg hf
     obtain ⟨a, _, ha⟩ := List.getElem_of_mem hg
     have hg' : (clear s).awgs[a]? = some g := by rw [← ha]; exact List.getElem?_eq_getElem _
     cases hu : aget n g.progs with
@@ -188,7 +201,7 @@ theorem clear_gone {s : State} (hI : Inv s) (n : Name) : Gone (clear s) n := by
     | some u =>
       obtain ⟨r, hr, _⟩ := hI'.awgHeld a g hg' n u hu
       rw [hreg] at hr; cases hr
-  · intro g hg
+  · intro g hg hf
     obtain ⟨d, _, hd⟩ := List.getElem_of_mem hg
     have hg' : (clear s).dacs[d]? = some g := by rw [← hd]; exact List.getElem?_eq_getElem _
     cases hw : aget n g.progs with
@@ -407,41 +420,54 @@ theorem rec_init (cfg : List (Nat × Nat)) (ndacs : Nat) : RecInv (init cfg ndac
   recInv_of_inv (inv_init cfg ndacs)
 
 /-- every operation that returns normally preserves the record invariant — no side condition -/
-theorem rec_step {s s' : State} {op : Op} (hI : RecInv s) (h : step s op = .ok s') : RecInv s' :=
-  rec_step' hI h
+theorem rec_step {s s' : State} {op : Op} (hI : RecInv s) (hh : heals s op = false)
+    (h : step s op = .ok s') : RecInv s' :=
+  rec_step' hI hh h
 
-theorem rec_run {ops : List Op} : ∀ {s s' : State}, RecInv s → run s ops = .ok s' → RecInv s' := by
+/-- no operation of the history switches a refusing device back to obeying (test-bench operation; every
+HardwareSetup call qualifies) -/
+def NoHeal : State → List Op → Prop
+  | _, [] => True
+  | s, op :: ops => heals s op = false ∧ ∀ s', step s op = .ok s' → NoHeal s' ops
+
+theorem rec_run {ops : List Op} : ∀ {s s' : State}, RecInv s → NoHeal s ops → run s ops = .ok s' → RecInv s' := by
   induction ops with
   | nil =>
-    intro s s' hI h
+    intro s s' hI _ h
     simp only [run, runWith] at h
     injection h with h; subst h; exact hI
   | cons op ops ih =>
-    intro s s' hI h
+    intro s s' hI hn h
     simp only [run, runWith] at h
     cases hs : stepWith true s op with
     | error e => rw [hs] at h; cases h
     | ok s1 =>
       rw [hs] at h
-      exact ih (rec_step hI hs) h
+      exact ih (rec_step hI hn.1 hs) (hn.2 s1 hs) h
 
-/-- after every finite history of normally returning calls, re-wiring included -/
+/-- after every finite history of normally returning calls, re-wiring and refusing devices included -/
 theorem rec_history (cfg : List (Nat × Nat)) (ndacs : Nat) (ops : List Op) (s' : State)
-    (h : run (init cfg ndacs) ops = .ok s') : RecInv s' :=
-  rec_run (rec_init cfg ndacs) h
+    (hn : NoHeal (init cfg ndacs) ops) (h : run (init cfg ndacs) ops = .ok s') : RecInv s' :=
+  rec_run (rec_init cfg ndacs) hn h
 
 /-- the same with raising calls interleaved -/
-theorem rec_history_skip (ops : List Op) : ∀ (s : State), RecInv s → RecInv (ops.foldl stepSkip s) := by
+theorem rec_history_skip (ops : List Op) : ∀ (s : State), RecInv s →
+    (∀ (pre : List Op) (op : Op) (post : List Op), ops = pre ++ op :: post →
+        heals (pre.foldl stepSkip s) op = false) →
+    RecInv (ops.foldl stepSkip s) := by
   induction ops with
-  | nil => intro s hI; exact hI
+  | nil => intro s hI _; exact hI
   | cons op ops ih =>
-    intro s hI
+    intro s hI hh
     simp only [List.foldl_cons]
     apply ih
-    unfold stepSkip
-    cases hs : step s op with
-    | error e => exact hI
-    | ok s1 => exact rec_step hI hs
+    · unfold stepSkip
+      cases hs : step s op with
+      | error e => exact hI
+      | ok s1 => exact rec_step hI (hh [] op ops rfl) hs
+    · intro pre op' post e
+      have := hh (op :: pre) op' post (by rw [e]; rfl)
+      simpa using this
 
 /-- a removed program is gone from every device, whatever happened to the wiring since its registration -/
 theorem remove_gone_any {s : State} (n : Name) (hI : RecInv s) : Gone (remove s n) n := by
@@ -452,39 +478,40 @@ theorem remove_gone_any {s : State} (n : Name) (hI : RecInv s) : Gone (remove s 
     | none => simpa using hr
     | some r => exact aget_adel_self _ _
   refine ⟨hreg, ?_, ?_⟩
-  · intro g hg
+  · intro g hg hf
     obtain ⟨a, _, ha⟩ := List.getElem_of_mem hg
     have hg' : (remove s n).awgs[a]? = some g := by rw [← ha]; exact List.getElem?_eq_getElem _
     cases hu : aget n g.progs with
     | none => rfl
     | some u =>
-      obtain ⟨r, hr, _⟩ := hI'.awgRec a g hg' n u hu
+      obtain ⟨r, hr, _⟩ := hI'.awgRec a g hg' hf n u hu
       rw [hreg] at hr; cases hr
-  · intro g hg
+  · intro g hg hf
     obtain ⟨d, _, hd⟩ := List.getElem_of_mem hg
     have hg' : (remove s n).dacs[d]? = some g := by rw [← hd]; exact List.getElem?_eq_getElem _
     cases hw : aget n g.progs with
     | none => rfl
     | some w =>
-      obtain ⟨r, hr, _⟩ := hI'.dacRec d g hg' n w hw
+      obtain ⟨r, hr, _⟩ := hI'.dacRec d g hg' hf n w hw
       rw [hreg] at hr; cases hr
 
 /-- after clearing, every program is gone from every device, wired or not -/
 theorem clear_gone_any {s : State} (hI : RecInv s) (n : Name) : Gone (clear s) n := by
   obtain ⟨h1, h2⟩ := clear_empty hI
   refine ⟨rfl, ?_, ?_⟩
-  · intro g hg
+  · intro g hg hf
     obtain ⟨a, _, ha⟩ := List.getElem_of_mem hg
-    exact h1 a g (by rw [← ha]; exact List.getElem?_eq_getElem _) n
-  · intro g hg
+    exact h1 a g (by rw [← ha]; exact List.getElem?_eq_getElem _) hf n
+  · intro g hg hf
     obtain ⟨d, _, hd⟩ := List.getElem_of_mem hg
-    exact h2 d g (by rw [← hd]; exact List.getElem?_eq_getElem _) n
+    exact h2 d g (by rw [← hd]; exact List.getElem?_eq_getElem _) hf n
 
 /-- "a removed or cleared program is gone everywhere" after any history, without the `Admissible` side
 condition -/
 theorem gone_after_any_history (cfg : List (Nat × Nat)) (ndacs : Nat) (ops : List Op) (s' : State)
-    (h : run (init cfg ndacs) ops = .ok s') (n : Name) : Gone (remove s' n) n ∧ Gone (clear s') n :=
-  ⟨remove_gone_any n (rec_history cfg ndacs ops s' h), clear_gone_any (rec_history cfg ndacs ops s' h) n⟩
+    (hn : NoHeal (init cfg ndacs) ops) (h : run (init cfg ndacs) ops = .ok s') (n : Name) :
+    Gone (remove s' n) n ∧ Gone (clear s') n :=
+  ⟨remove_gone_any n (rec_history cfg ndacs ops s' hn h), clear_gone_any (rec_history cfg ndacs ops s' hn h) n⟩
 
 /-! ### PF-C18a: the unrepaired `clear_programs` forgets a device that dropped out of the wiring -/
 
@@ -504,5 +531,23 @@ theorem pfc18a_counterexample :
 /-- the repaired code on the same history -/
 example : ∃ s', run (init [(1, 0), (1, 0)] 0) pfc18aOps = .ok s' ∧ Gone s' 0 ∧ recInvB s' = true :=
   ⟨_, rfl, by decide, by decide⟩
+
+/-! ### refusing devices (fault injection) -/
+
+/-- `_remove_from_devices` catches the `RuntimeError` per device: generator 0 refuses `remove`, the marker name
+is on both generators; after `remove_program` the obeying generator 1 is clean (`Gone` speaks about obeying
+devices), the record invariant holds, generator 0 keeps what it refused to drop -/
+example : ∃ s', run (init [(1, 1), (1, 1)] 0)
+    [.setChannel 0 [.out ⟨0, .marker, 0, 0⟩, .out ⟨1, .marker, 0, 0⟩] false, .setFaultAwg 0 1,
+     .register 0 ⟨0, [0], []⟩ true false none, .remove 0] = .ok s' ∧
+    Gone s' 0 ∧ recInvB s' = true ∧
+    (s'.awgs[0]?).map (fun g => (aget 0 g.progs).isSome) = some true ∧
+    (s'.awgs[1]?).map (fun g => (aget 0 g.progs).isSome) = some false :=
+  ⟨_, rfl, by decide, by decide, by decide, by decide⟩
+
+/-- an un-caught device fault: updating a program on a generator that refuses `remove` raises -/
+example : run (init [(1, 0)] 0)
+    [.setChannel 0 [.out ⟨0, .playback, 0, 0⟩] false, .register 0 ⟨0, [0], []⟩ true false none,
+     .setFaultAwg 0 1, .register 0 ⟨1, [0], []⟩ true true none] = .error .deviceFault := rfl
 
 end QP.Props.C18
